@@ -69,6 +69,9 @@ type Scenario struct {
 	Steps   []Step `json:"steps,omitempty"`
 	// script: the source's Close is gated (released by step "sclose") instead of returning at once
 	SlowClose bool `json:"slow_close,omitempty"`
+	// stream: the context handed to MapStream is already done when MapStream is called (omitted when false:
+	// older corpus / replay files read unchanged)
+	Dead bool `json:"dead,omitempty"`
 	// timed
 	N            int    `json:"n,omitempty"`
 	SrcErrAt     int    `json:"src_err_at,omitempty"` // position+1 at which the source fails (0 = never)
@@ -900,6 +903,9 @@ func (e *env) bubble(t *testing.T, sc *Scenario, r *vlib.Rand, maxSteps int, out
 			defer tm.Stop()
 		}
 		e.parent = parent
+		if sc.Dead && sc.Variant == "stream" {
+			parent.cancel() // the caller's context is done before MapStream is called
+		}
 		var st stream.Stream[int]
 		var it iterator.Iterator[int]
 		if p, val := vlib.Try(func() {
@@ -950,6 +956,9 @@ func (e *env) bubble(t *testing.T, sc *Scenario, r *vlib.Rand, maxSteps int, out
 		initLine := fmt.Sprintf("init %d %d %d", sc.P, sc.B, gmp)
 		if sc.SlowClose && sc.Variant == "stream" {
 			initLine += " slow" // the source's Close is an action of the environment, not an internal step
+		}
+		if sc.Dead && sc.Variant == "stream" {
+			initLine += " dead" // the environment's parentCancel is the first label of the run
 		}
 		out.Lines = append(out.Lines, initLine, "obs "+e.observe())
 		e.quiescentMonitors()
@@ -1352,7 +1361,63 @@ func genScript(r *vlib.Rand) *Scenario {
 	if sc.Variant == "stream" && r.Chance(1, 3) {
 		sc.SlowClose = true
 	}
+	if sc.Variant == "stream" && r.Chance(1, 10) {
+		sc.Dead = true
+	}
 	return sc
+}
+
+// directedDead: MapStream is handed a context that is already done (the boundary "cancelled before the first
+// step" of "every timing"): nothing else, Next with a live / an expired context, Close at once, the source's
+// Close slow and released before / after the consumer's calls; then the usual wind-down (Close, release what is
+// gated). Timed: the consumer reads, closes after 0 / 1 results, through a forwarding wrapper, a reducer owns it.
+// The clauses are the ones every other scenario is judged by (the source closed exactly once by the time Close
+// returns, never Next after Close, results correct, the error the caller's own).
+func directedDead() []Scenario {
+	var out []Scenario
+	scripts := [][]Step{
+		{},
+		{{Op: "close"}},
+		{{Op: "next"}},
+		{{Op: "nextx"}, {Op: "next"}},
+		{{Op: "next"}, {Op: "next"}, {Op: "close"}},
+		{{Op: "sclose"}, {Op: "next"}},
+		{{Op: "next"}, {Op: "sclose"}, {Op: "next"}},
+		{{Op: "close"}, {Op: "sclose"}},
+		{{Op: "sleep", V: 61}, {Op: "next"}},
+	}
+	for _, pb := range [][3]int{{1, 0, 0}, {1, 2, 0}, {2, 0, 0}, {3, 5, 0}, {0, 1, 2}, {-1, -1, 1}} {
+		for _, slow := range []bool{false, true} {
+			for _, st := range scripts {
+				out = append(out, Scenario{Kind: "script", Variant: "stream", P: pb[0], B: pb[1], Gmp: pb[2], SlowClose: slow, Dead: true,
+					Steps: append([]Step{}, st...)})
+			}
+		}
+	}
+	for _, p := range []int{1, 3} {
+		base := Scenario{Kind: "timed", Variant: "stream", P: p, B: 1, N: 4, LatMode: 1, LatMax: 5, Dead: true}
+		out = append(out, base)
+		for _, ca := range []int{1, 2} {
+			sc := base
+			sc.CloseAfter = ca
+			out = append(out, sc)
+			sc.SrcCloseLat = 3
+			out = append(out, sc)
+			sc.SrcIdle = true
+			out = append(out, sc)
+			sc.Owner = "map"
+			out = append(out, sc)
+		}
+		sc := base
+		sc.Owner, sc.SrcCloseLat = "collect", 3
+		out = append(out, sc)
+		sc.SrcIdle = true
+		out = append(out, sc)
+		sc = base
+		sc.N = 0
+		out = append(out, sc)
+	}
+	return out
 }
 
 // directed: script scenarios for two situations that random scripts reach only by luck.
@@ -1522,6 +1587,9 @@ func genTimed(r *vlib.Rand, big bool) *Scenario {
 		}
 		if r.Chance(1, 2) {
 			sc.SrcCloseLat = []int{1, 3, 20}[r.Intn(3)]
+		}
+		if r.Chance(1, 12) {
+			sc.Dead = true // the caller's context is done before MapStream is called
 		}
 		if sc.N > 0 && r.Chance(1, 6) {
 			// time passes: the source idle / a call of f very slow / the consumer away, for a minute .. a day
@@ -1819,6 +1887,15 @@ func TestVerif(t *testing.T) {
 		res.Case(wide[i].key(), nontrivial(&wide[i], o), nil)
 		res.CountN("directed-wide-ms", int(time.Since(t0).Milliseconds()))
 	}
+	dead := directedDead()
+	for i := range dead {
+		if nFatal >= maxFatal {
+			break
+		}
+		res.Count("directed-dead-context")
+		o := check(t, &dead[i], nil, ms, res, env)
+		res.Case(dead[i].key(), nontrivial(&dead[i], o), nil)
+	}
 	idle := directedIdle()
 	for i := range idle {
 		if nFatal >= maxFatal {
@@ -1882,6 +1959,9 @@ func TestVerif(t *testing.T) {
 		}
 		if sc.SrcIdle {
 			res.Count("timed-idle-source")
+		}
+		if sc.Dead {
+			res.Count("context-done-before-MapStream")
 		}
 		if sc.pauses() > 0 {
 			res.Count("timed-with-long-pause")
